@@ -68,7 +68,7 @@ CTOR_CHECKS = {
 }
 
 # hand models that exist in coq/Model/SchemaM.v (others: H_none = oracle only)
-COQ_HAND = {}
+COQ_HAND = {"hip": "HHip", "ipseckey": "HIpseckey", "amtrelay": "HAmtrelay", "apl": "HApl"}
 
 UMAX = {1: 255, 2: 65535, 4: 4294967295, 6: 281474976710655}
 FMT = {"B": 1, "H": 2, "I": 4}
@@ -1164,7 +1164,7 @@ def emit_coq(tr, modname="GenRdtypes"):
                 f"    {coq_side(t['writer'])}\n    {coq_side(t['reader'])}\n    ({coq_check(t['check'])})"
             )
         elif t["kind"] == "hand" and t["hand"]:
-            ents.append(f"  (* {t['module']} *) mk_hand {t['rdclass']} {t['rdtype']} {COQ_HAND.get(t['hand'], 'H_none')}")
+            ents.append(f"  (* {t['module']} *) mk_hand {t['rdclass']} {t['rdtype']} H_none")
     lines.append(";\n".join(ents))
     lines.append("].")
     return "\n".join(lines) + "\n"
